@@ -1,8 +1,223 @@
-import VelaVerif.Model.WeightLayout
-import VelaVerif.Spec.WeightLayout
-namespace VelaVerif.Props.C08
-open VelaVerif.WeightLayout
+import VelaVerif.Lemmas.WeightLayout
+/-!
+# C08 — encoded weight and scale tensors cover each output channel exactly once
 
-theorem placeholder : roundUp16 16 = 16 := by decide
+Property theorems only.  Model: `Model/WeightLayout.lean` (transcription of `weight_compressor.py`'s
+`encode_bias`, `encode_weight_and_scale_tensor`, the cache look-up, and of `create_weights` /
+`create_dma_op`), Spec: `Spec/WeightLayout.lean`, helpers: `Lemmas/WeightLayout.lean`.
+The MLW encoder is the arbitrary function `c.enc`; every theorem holds for all encoders.
+-/
+namespace VelaVerif.Props.C08
+open VelaVerif.WeightLayout VelaVerif.WeightSpec
+
+/-! ## 1. the 80-bit record -/
+
+/-- For every bias in the signed 40-bit range, multiplier below 2^32 and shift below 64 the model of
+    `encode_bias` returns 10 bytes which the Spec decoder reads back as exactly these three fields. -/
+theorem bias_record_roundtrip (bias scale shift : Int)
+    (hb : -(2:Int)^39 ≤ bias ∧ bias < (2:Int)^39) (hs : 0 ≤ scale ∧ scale < (2:Int)^32) (hh : 0 ≤ shift ∧ shift < 64) :
+    ∃ bytes, encodeBias bias scale shift = .ok bytes ∧ bytes.length = 10 ∧ (∀ b ∈ bytes, b < 256) ∧
+      decodeRecord bytes = some ⟨bias, scale.toNat, shift.toNat⟩ := by
+  refine ⟨recordBytes bias scale shift, encodeBias_ok _ _ _ ⟨hb, hs, hh⟩, rfl, ?_, decode_recordBytes _ _ _ ⟨hb, hs, hh⟩⟩
+  intro b hb'
+  simp only [recordBytes, List.mem_cons, List.not_mem_nil, or_false] at hb'
+  rcases hb' with h | h | h | h | h | h | h | h | h | h <;> subst h <;> first | exact byteOf_lt _ _ | omega
+
+/-- Anything outside those ranges is rejected (the three `assert`s), never truncated. -/
+theorem bias_record_rejects (bias scale shift : Int)
+    (h : ¬ ((-(2:Int)^39 ≤ bias ∧ bias < (2:Int)^39) ∧ (0 ≤ scale ∧ scale < (2:Int)^32) ∧ (0 ≤ shift ∧ shift < 64))) :
+    encodeBias bias scale shift = .error .assert :=
+  encodeBias_err _ _ _ h
+
+/-- Without the asserts the packing would alias: 2^39 and -2^39 have the same five bias bytes. -/
+theorem bias_alias_witness : (List.range 5).map (byteOf ((2:Int)^39)) = (List.range 5).map (byteOf (-(2:Int)^39)) := by
+  decide
+
+/-! ## 2. ranges -/
+
+/-- For **every** configuration (any core count, block depth, encoder, bias/scale lists) and **every**
+    depth-offset list on which the model does not fail: each created range starts 16-byte aligned, its
+    weight section starts and ends 16-byte aligned, the ranges are pairwise disjoint and in stream
+    order, lie inside the buffer, and the scale section ends before the weight section starts.
+    When the offsets are strictly increasing the `OrderedDict` holds exactly these ranges. -/
+theorem ranges_disjoint_ordered_aligned (c : Cfg) (offsets : List Nat) (out : Out)
+    (h : encodeTensor c offsets = .ok out) :
+    AlignedOk (rawArtefactOf c out) ∧ OrderedOk (rawArtefactOf c out) ∧
+    (offsets.Pairwise (· < ·) → artefactOf c out = rawArtefactOf c out) := by
+  have hf := encodeTensor_facts c offsets out h
+  obtain ⟨h1, h2⟩ := raw_aligned_ordered c offsets out hf
+  refine ⟨h1, h2, fun hs => ?_⟩
+  unfold artefactOf rawArtefactOf
+  rw [ranges_eq_raw c offsets out hs hf]
+
+/-- Under the Spec's quantifier (`ValidReq`: ≥ 1 core, block depth ≥ core count, offsets strictly
+    increasing from 0 to the OFM depth) the table holds exactly one range per expected (core, slice),
+    in stream order: none missing, none extra, none duplicated. -/
+theorem keys_exactly_expected (c : Cfg) (offsets : List Nat) (out : Out)
+    (hv : ValidReq (reqOf c offsets)) (h : encodeTensor c offsets = .ok out) :
+    KeysOk (reqOf c offsets) (artefactOf c out) := by
+  have hf := encodeTensor_facts c offsets out h
+  obtain ⟨_, hb, _, _, _, hs⟩ := hv
+  have : artefactOf c out = rawArtefactOf c out := by
+    unfold artefactOf rawArtefactOf; rw [ranges_eq_raw c offsets out hs hf]
+  rw [this]
+  exact keys_ok c offsets out hb hf
+
+/-! ## 3. scale records -/
+
+/-- every slice that does not end at the OFM depth has a length that is a multiple of the core count
+    (always true on one core; the scheduler's slices are multiples of 16 or of the block depth) -/
+def RegularSlices (q : SReq) : Prop :=
+  ∀ s ∈ slices q.offsets, s.2.2 % q.ncores = 0 ∨ s.2.1 + s.2.2 = q.fullDepth
+
+/- Full statement (FALSE of the unchanged code, see `scale_count_witness`):
+     ∀ c offsets out, ValidReq (reqOf c offsets) → biases/scales have one entry per channel →
+       encodeTensor c offsets = .ok out →
+       ScaleCountOk (reqOf c offsets) (artefactOf c out) ∧ (the scale section of every (core, slice) decodes to
+       exactly the records of `chanOf ncores core off len`).
+   Proved below with the additional hypothesis `RegularSlices`: the Python slice
+   `biases[off+core : off+core+len : ncores]` stops at `off+core+len`, one channel beyond the slice for
+   `core ≥ 1` unless `ncores ∣ len` or the list ends at `off+len`. -/
+
+/-- The scale section of every (core, slice) holds exactly one 10-byte record per channel of the slice
+    whose in-slice index is `≡ core (mod ncores)`, in ascending order, and the Spec decoder reads
+    back that channel's `(bias, multiplier, shift)` — for regular slicings. -/
+theorem scale_count_partial (c : Cfg) (offsets : List Nat) (out : Out)
+    (hv : ValidReq (reqOf c offsets)) (hbl : c.biases.length = c.fullDepth) (hsl : c.scales.length = c.fullDepth)
+    (hreg : RegularSlices (reqOf c offsets)) (h : encodeTensor c offsets = .ok out) :
+    ScaleCountOk (reqOf c offsets) (artefactOf c out) ∧
+    ∀ p ∈ (expected (reqOf c offsets)).zip (artefactOf c out).ranges,
+      ScaleRecordsAt (reqOf c offsets) out.stream (expOf c) p.1 p.2 := by
+  have hf := encodeTensor_facts c offsets out h
+  have hv' := hv
+  obtain ⟨hn, hb, _, _, _, hs⟩ := hv
+  have hart : artefactOf c out = rawArtefactOf c out := by
+    unfold artefactOf rawArtefactOf; rw [ranges_eq_raw c offsets out hs hf]
+  rw [hart]
+  have key : ∀ p ∈ (expected (reqOf c offsets)).zip (rawArtefactOf c out).ranges,
+      ScaleCountAt (reqOf c offsets) p.1 p.2 ∧ ScaleRecordsAt (reqOf c offsets) out.stream (expOf c) p.1 p.2 := by
+    intro p hp
+    obtain ⟨p', hp', rfl⟩ := zip_map_right_mem _ _ toARange p hp
+    have hm := (made_expected c offsets out hb hf).zip p' hp'
+    have he := (List.of_mem_zip hp').1
+    have hr := (List.of_mem_zip hp').2
+    obtain ⟨hsl', hcore⟩ := mem_expected _ _ he
+    obtain ⟨hpos, hle⟩ := slice_facts _ hv' _ hsl'
+    have hcore' : p'.1.core < c.ncores := by
+      have : activeCores (reqOf c offsets) ≤ c.ncores := Nat.min_le_left _ _
+      omega
+    have hg := hf.good.rng p'.2 hr
+    have hreg' := hreg _ hsl'
+    obtain ⟨_, h2, h3, h4⟩ := made_scale c _ _ _ _ p'.2 out.stream hm hg (by rw [hbl, hsl]) hn hcore'
+      (by rw [hbl]; exact hle) (by rw [hbl]; exact hreg')
+    exact ⟨h2, h3, h4⟩
+  exact ⟨fun p hp => (key p hp).1, fun p hp => (key p hp).2⟩
+
+/-- The excluded case is real (DESIGN.md section 8 #11, reproduced on the implementation by the check):
+    two cores, 8 channels, block depth 8, depth offsets [0, 3, 8] is inside the Spec's quantifier, the
+    model succeeds, (core 1, slice 0) writes records for channels 1 **and 3** although its weight stream
+    holds channel 1 only, `ScaleCountOk` fails, and channel 3 has two records overall. -/
+theorem scale_count_witness :
+    ValidReq (reqOf witnessCfg [0, 3, 8]) ∧
+    (encodeTensor witnessCfg [0, 3, 8]).toOption.map
+        (fun out => out.ranges.map fun r => (r.core, r.depth, r.scaleCh, r.weightCh))
+      = some [(0, 0, [0, 2], [0, 2]), (1, 0, [1, 3], [1]), (0, 3, [3, 5, 7], [3, 5, 7]), (1, 3, [4, 6], [4, 6])] ∧
+    (encodeTensor witnessCfg [0, 3, 8]).toOption.map
+        (fun out => decide (ScaleCountOk (reqOf witnessCfg [0, 3, 8]) (artefactOf witnessCfg out))) = some false ∧
+    (encodeTensor witnessCfg [0, 3, 8]).toOption.map (fun out => (out.ranges.flatMap Range.scaleCh).count 3) = some 2 := by
+  decide +kernel
+
+/-! ## 4. weight sections and the partition of the channels -/
+
+/-- The weight section of every (core, slice) is the encoder's answer for exactly the channels of the
+    slice with in-slice index `≡ core (mod ncores)` (ascending) and the core's share of the block depth —
+    no regularity hypothesis: `core_deinterleave` slices the brick, not the whole tensor. -/
+theorem weight_sections (c : Cfg) (offsets : List Nat) (out : Out)
+    (hv : ValidReq (reqOf c offsets)) (hw : c.doWeights = true) (h : encodeTensor c offsets = .ok out) :
+    ∀ p ∈ (expected (reqOf c offsets)).zip out.ranges,
+      p.2.weightCh = p.1.chans (reqOf c offsets) ∧ (p.2.offset + p.2.weightOffset) % 16 = 0 ∧
+      bytesAt out.stream (p.2.offset + p.2.weightOffset) p.2.weightBytes
+        = c.enc (p.1.chans (reqOf c offsets)) (coreBlockDepth c.ncores c.blockDepth p.1.core) := by
+  have hf := encodeTensor_facts c offsets out h
+  have hv' := hv
+  obtain ⟨hn, hb, _, _, _, hs⟩ := hv
+  rw [ranges_eq_raw c offsets out hs hf]
+  intro p hp
+  have hm := (made_expected c offsets out hb hf).zip p hp
+  obtain ⟨hsl', hcore⟩ := mem_expected _ _ (List.of_mem_zip hp).1
+  obtain ⟨_, hle⟩ := slice_facts _ hv' _ hsl'
+  have hcore' : p.1.core < c.ncores := by
+    have : activeCores (reqOf c offsets) ≤ c.ncores := Nat.min_le_left _ _
+    omega
+  have hg := hf.good.rng p.2 (List.of_mem_zip hp).2
+  obtain ⟨h1, h2⟩ := made_weights c _ _ _ _ p.2 out.stream hm hg hw hn hcore' hle
+  refine ⟨h1, ?_, ?_⟩
+  · have := hg.offAligned; have := hg.woAligned; omega
+  · rw [h2, cbdOf_eq_coreBlockDepth c _ hn hcore']; rfl
+
+/-- Spec side: the channel sets of the expected (core, slice) pairs partition `[0, depth)`. -/
+theorem expected_channels_partition (q : SReq) (hv : ValidReq q) :
+    (∀ ch, ch < q.fullDepth → ∃ e ∈ expected q, ch ∈ e.chans q) ∧
+    (∀ e ∈ expected q, ∀ ch ∈ e.chans q, ch < q.fullDepth) ∧
+    (∀ e1 ∈ expected q, ∀ e2 ∈ expected q, ∀ ch, ch ∈ e1.chans q → ch ∈ e2.chans q → e1 = e2) ∧
+    (∀ e ∈ expected q, (e.chans q).Nodup) :=
+  chans_partition q hv
+
+/-- Model side: for regular slicings every output channel below the OFM depth has its record in the
+    scale section of exactly one range and its weights in the weight section of the same range, and
+    no range mentions a channel twice or a channel outside `[0, depth)`.
+    (Without `RegularSlices` this is false for the records — `scale_count_witness` — but
+    still true for the weights, `weight_sections`.) -/
+theorem channels_once (c : Cfg) (offsets : List Nat) (out : Out)
+    (hv : ValidReq (reqOf c offsets)) (hbl : c.biases.length = c.fullDepth) (hsl : c.scales.length = c.fullDepth)
+    (hreg : RegularSlices (reqOf c offsets)) (hw : c.doWeights = true) (h : encodeTensor c offsets = .ok out) :
+    (∀ ch, ch < c.fullDepth → ∃ r ∈ out.ranges, ch ∈ r.scaleCh ∧ ch ∈ r.weightCh ∧
+        ∀ r' ∈ out.ranges, (ch ∈ r'.scaleCh ∨ ch ∈ r'.weightCh) → r' = r) ∧
+    (∀ r ∈ out.ranges, r.scaleCh.Nodup ∧ r.weightCh = r.scaleCh ∧ ∀ ch ∈ r.scaleCh, ch < c.fullDepth) := by
+  have hf := encodeTensor_facts c offsets out h
+  have hv' := hv
+  obtain ⟨hn, hb, _, _, _, hs⟩ := hv
+  rw [ranges_eq_raw c offsets out hs hf]
+  have hall := made_expected c offsets out hb hf
+  obtain ⟨hcover, hbound, huniq, hnodup⟩ := chans_partition (reqOf c offsets) hv'
+  -- channel lists of a range paired with its expected entry
+  have hch : ∀ (e : Expect) (r : Range), e ∈ expected (reqOf c offsets) → r ∈ out.rawRanges →
+      Made c e.slice e.off e.len e.core r → r.scaleCh = e.chans (reqOf c offsets) ∧ r.weightCh = e.chans (reqOf c offsets) := by
+    intro e r he hr hm
+    obtain ⟨hsl', hcore⟩ := mem_expected _ _ he
+    obtain ⟨_, hle⟩ := slice_facts _ hv' _ hsl'
+    have hcore' : e.core < c.ncores := by
+      have : activeCores (reqOf c offsets) ≤ c.ncores := Nat.min_le_left _ _
+      omega
+    have hg := hf.good.rng r hr
+    exact ⟨(made_scale c _ _ _ _ r out.stream hm hg (by rw [hbl, hsl]) hn hcore' (by rw [hbl]; exact hle)
+              (by rw [hbl]; exact hreg _ hsl')).1,
+           (made_weights c _ _ _ _ r out.stream hm hg hw hn hcore' hle).1⟩
+  refine ⟨?_, ?_⟩
+  · intro ch hlt
+    obtain ⟨e, he, hin⟩ := hcover ch hlt
+    obtain ⟨r, hr, hm⟩ := hall.exists_right e he
+    obtain ⟨h1, h2⟩ := hch e r he hr hm
+    refine ⟨r, hr, by rw [h1]; exact hin, by rw [h2]; exact hin, ?_⟩
+    intro r' hr' hin'
+    obtain ⟨e', he', hm'⟩ := hall.exists_left r' hr'
+    obtain ⟨h1', h2'⟩ := hch e' r' he' hr' hm'
+    have hin'' : ch ∈ e'.chans (reqOf c offsets) := by
+      rcases hin' with hx | hx
+      · rw [h1'] at hx; exact hx
+      · rw [h2'] at hx; exact hx
+    have hee : e' = e := huniq e' he' e he ch hin'' hin
+    subst hee
+    rcases pairwise_mem_cases (rawRanges_distinct c offsets out hs hf) r' r hr' hr with hx | hx | hx
+    · exact hx
+    · exact absurd ⟨by rw [hm'.hcore, hm.hcore], by rw [hm'.hdepth, hm.hdepth]⟩ hx
+    · exact absurd ⟨by rw [hm'.hcore, hm.hcore], by rw [hm'.hdepth, hm.hdepth]⟩ hx
+  · intro r hr
+    obtain ⟨e, he, hm⟩ := hall.exists_left r hr
+    obtain ⟨h1, h2⟩ := hch e r he hr hm
+    refine ⟨by rw [h1]; exact hnodup e he, by rw [h1, h2], ?_⟩
+    intro ch hc
+    rw [h1] at hc
+    exact hbound e he ch hc
 
 end VelaVerif.Props.C08
